@@ -93,6 +93,12 @@ CHECKS = {
         "Trusted: scipy.stats; the component-wise Gaussian tests decide unit mean-square gain and K exactly under the stated law.",
         "3 C13",
     ),
+    "C08": (
+        "runtime monitoring: per-item invariant monitors at the constraint boundary (power law, positive-real scaling, idempotence, scale invariance, peak/PAPR bounds, composite = sequential application) over signal families x shapes x scales",
+        "Every constraint type and factory x targets over six decades x real/complex x 1-D/batch-of-1/batched/3-D/4-D x six signal families x input scales 1e-2..1e4 x random chains. Exploration (tens of thousands of items per run).",
+        "Trusted: float64 re-measurement of powers. Items with negligible power and sparse signals (PAPR) are exempt as the property states; one listed finding (OFDM factory with a tight peak limit).",
+        "3 C08",
+    ),
 }
 
 ALL = [f"C{i:02d}" for i in range(1, 21)]
